@@ -1448,6 +1448,11 @@ class SpaceManager(SharedSpaceOperations):
                 cells.get_repr(fullname=True, add_params=False),
                 cells.bases[0].get_repr(fullname=True, add_params=False)))
 
+        if not cells.formula._is_lambda:
+            # Reject before anything is changed
+            # if the function cannot be given the new name
+            Formula(cells.formula, name=name)
+
         old_name = cells.name
 
         # Rename only the sub cells that are derived from ``cells``.
